@@ -10,6 +10,7 @@ package main
 import (
 	"go/ast"
 	"go/token"
+	"strings"
 )
 
 // callArgLit finds in fn the first call whose function prints as fun and whose argument at
@@ -110,7 +111,6 @@ func (f *file) makeChanCap(fnName, name string) (int64, bool) {
 	return val, found
 }
 
-
 // dispatchCtx inspects ServantProxy.TarsInvoke: X is the variable assigned by
 // `X, cancel = context.WithTimeout(P, timeout)` (the context that carries the per-call / configured
 // timeout when the caller's context P has no deadline). For every call site that leads to doInvoke —
@@ -190,7 +190,6 @@ func (f *file) dispatchCtx(fnName string) (map[string]int64, bool) {
 	return out, true
 }
 
-
 // queueLenReceivers inspects ServantProxy.doInvoke (with the fallback reading a helper that is new
 // relative to the baseline is seen inlined): the `atomic.AddInt32(<X>.queueLen, +n)` that takes the
 // slot and the `atomic.AddInt32(<Y>.queueLen, -n)` of the deferred cleanup. It reports 1 iff both are
@@ -234,7 +233,6 @@ func (f *file) queueLenReceivers(fnName string) (int64, bool) {
 	}
 	return 0, true
 }
-
 
 // lockReleased checks the lock discipline of one function: after `<lock>.Lock()` every way out of the
 // function — each `return` and the end of the body — has released the lock, either by a
@@ -353,7 +351,6 @@ func (f *file) lockReleased(fnName, lock string) (int64, bool) {
 	}
 	return 1, true
 }
-
 
 // slotReleased generalises lockReleased to acquire/release pairs of a counter: after an
 // `atomic.AddInt32(&….<field>, +n)` (as a statement or inside the condition / init of an `if`) every way
@@ -488,6 +485,79 @@ func (f *file) slotReleased(fnName, field string) (int64, bool) {
 	return 1, true
 }
 
+// withTimeoutUnguarded inspects ServantProxy.TarsInvoke: the `… = context.WithTimeout(ctx, timeout)` that
+// gives a call without a context deadline its deadline must be guarded by nothing but "the context has no
+// deadline": its only enclosing `if` is `if dl, ok := ctx.Deadline(); ok { … } else { HERE }`. A further
+// enclosing condition (e.g. `else if timeout > 0`) — any comparison of something with a literal on the way
+// down to the assignment — makes the wrapping depend on the value of the timeout: 0.
+func (f *file) withTimeoutUnguarded(fnName string) (int64, bool) {
+	fd := f.funcDecl(fnName)
+	if fd == nil || fd.Body == nil {
+		return 0, false
+	}
+	var stack []ast.Node
+	var ifs []*ast.IfStmt
+	found := false
+	ast.Inspect(fd.Body, func(n ast.Node) bool {
+		if n == nil {
+			stack = stack[:len(stack)-1]
+			return true
+		}
+		stack = append(stack, n)
+		if found {
+			return true
+		}
+		as, ok := n.(*ast.AssignStmt)
+		if !ok || len(as.Rhs) != 1 {
+			return true
+		}
+		call, ok := as.Rhs[0].(*ast.CallExpr)
+		if !ok || exprStr(f.fset, call.Fun) != "context.WithTimeout" {
+			return true
+		}
+		found = true
+		for _, a := range stack {
+			if is, ok := a.(*ast.IfStmt); ok {
+				ifs = append(ifs, is)
+			}
+		}
+		return true
+	})
+	if !found {
+		anchorLost("%s: %s: `… = context.WithTimeout(…)` not found", f.path, fnName)
+		return 0, false
+	}
+	hasLitCmp := func(e ast.Expr) bool {
+		bad := false
+		ast.Inspect(e, func(m ast.Node) bool {
+			if be, ok := m.(*ast.BinaryExpr); ok {
+				switch be.Op {
+				case token.GTR, token.GEQ, token.LSS, token.LEQ, token.EQL, token.NEQ:
+					if _, ok := intLit(be.X); ok {
+						bad = true
+					}
+					if _, ok := intLit(be.Y); ok {
+						bad = true
+					}
+				}
+			}
+			return true
+		})
+		return bad
+	}
+	if len(ifs) != 1 {
+		return 0, true
+	}
+	is := ifs[0]
+	if is.Init == nil || !strings.Contains(exprStr(f.fset, is.Init), ".Deadline()") || hasLitCmp(is.Cond) {
+		return 0, true
+	}
+	if _, ok := is.Else.(*ast.BlockStmt); !ok {
+		return 0, true
+	}
+	return 1, true
+}
+
 func c08AppendUnique(l []string, names ...string) []string {
 	for _, n := range names {
 		dup := false
@@ -567,6 +637,9 @@ func init() {
 			v, ok = st.varInit(kv[1])
 			add(kv[0], v, ok)
 		}
+		// TarsInvoke: the deadline wrapping depends on nothing but "the context has no deadline"
+		v, ok = sv.withTimeoutUnguarded("ServantProxy.TarsInvoke")
+		add("callWithTimeoutUnguarded", v, ok)
 		// TarsInvoke: every dispatch path hands doInvoke the context that carries the effective deadline
 		if dc, ok := sv.dispatchCtx("ServantProxy.TarsInvoke"); ok {
 			for _, k := range []string{"FromParam", "Single", "Middleware", "Direct", "Pre", "Post"} {
